@@ -20,7 +20,12 @@ Pipeline
             exactly once, each fed parameter received the source object / attribute / compute_fn(sources);
        iii. link sets that close a cycle must raise ValueError at the `link_arguments` call that closes it
             (and not earlier).
-  4. open findings are replayed (still failing -> KNOWN-FINDING).
+  4. value flow: every end-to-end run the oracle accepts is also routed through the model `instantiateClasses`
+     (Core/GraphFlow) along the component sequence the real call used: constructor sequence, the argument each fed
+     parameter received (symbolic: obj / attr / compute_fn application), readiness, applied set popped at the end.
+     After-failure oracle: on one parser a failing instantiate_classes call followed by a good one must behave
+     like a first call and leave nothing on the parser or in the caller's cfg (C16_bookkeeping_fresh on real code).
+  5. open findings are replayed (still failing -> KNOWN-FINDING).
 """
 from __future__ import annotations
 
@@ -42,7 +47,11 @@ MANIFEST = {
                  "+ exhaustive/random differential correspondence with the real DirectedGraph/ActionLink + end-to-end constructor-log oracle on real parsers",
     "text": "Theorems in lean/Jap/Props/C16.lean prove for every sequence of add_edge calls that get_topological_order returns a permutation of the "
             "nodes with every edge forward, fails only with an edge closing a real cycle, and succeeds iff the graph is acyclic (fuel n+1 suffices); that "
-            "reorder is the stable sort by first matching key; and that with flat keys every source component precedes the component it feeds. The "
+            "reorder is the stable sort by first matching key; that with flat keys every source component precedes the component it feeds; and, on "
+            "the value-flow model of apply_instantiation_links/instantiate_classes (applied-links set kept in the per-call cfg, opaque compute_fn table, "
+            "constructor log), that every class component is constructed exactly once, every argument received through a link key is F(constructed "
+            "source objects/attributes) whenever the sources are ready - which the order theorems give for acyclic link sets with owned keys - and "
+            "that every call starts with an empty applied set because the bookkeeping lives in cfg (regenerated Gen/LinkBookkeeping). The "
             "model is tied to /repo by running the real DirectedGraph, ActionLink.reorder and ActionLink.instantiation_order against the model's "
             "executable definitions on exhaustive small graphs in every insertion order, random graphs and real parsers; the property itself is checked "
             "end to end from constructor logs of real parsers with generated acyclic and cyclic link sets in every declaration order.",
